@@ -52,8 +52,9 @@ def gate_cfg(rng: random.Random, gate: str, on: bool = True) -> dict:
     """Sub-config that switches one feature on (on=True) with in-range random settings."""
     if gate == "gel":
         return {"graph": {"enabled": on, "coactivation_threshold": rng.choice([0.0, 0.2]), "observe_top_k": rng.choice([2, 8, 64]), "pair_cap_per_obs": rng.choice([1, 16, 2048]),
-                          "update": {"mode": rng.choice(["additive", "proportional"]), "alpha": rng.choice([0.02, 0.3])},
-                          "decay": {"half_life_turns": rng.choice([1, 10, 200]), "floor": rng.choice([0.0, 0.01])},
+                          "update": {"mode": rng.choice(["additive", "proportional"]), "alpha": rng.choice([0.02, 0.3]),
+                                     **rng.choice([{}, {}, {"clamp_min": -0.5, "clamp_max": 0.5}, {"clamp_min": 0.0, "clamp_max": 0.3}, {"clamp_min": -1.0, "clamp_max": 0.1}])},
+                          "decay": {"half_life_turns": rng.choice([1, 10, 200]), "floor": rng.choice([0.0, 0.01, 0.1])},
                           "merge": {"enabled": True, "min_size": 2, "min_avg_w": 0.0, "max_diameter": 4, "cap_per_turn": 2},
                           "split": {"enabled": True, "weak_edge_thresh": 0.0, "min_component_size": 2, "cap_per_turn": 2},
                           "promotion": {"enabled": True, "label_mode": rng.choice(["lexmin", "concat_k"]), "attach_weight": 0.5, "cap_per_turn": 1}}}
@@ -73,7 +74,8 @@ def gate_cfg(rng: random.Random, gate: str, on: bool = True) -> dict:
     if gate == "scheduler":
         return {"scheduler": {"enabled": on, "policy": rng.choice(["round_robin", "fair_queue"]), "quantum_ms": 10 ** 8,
                               "budgets": {"t1_pops": rng.choice([None, 0, 2, 100]), "t1_iters": rng.choice([None, 0, 1, 50]), "t2_k": rng.choice([None, 0, 1, 64]),
-                                          "t3_ops": rng.choice([None, 0, 1, 3]), "wall_ms": 10 ** 9},
+                                          "t3_ops": rng.choice([None, 0, 1, 3]), "wall_ms": 10 ** 9,
+                                          **rng.choice([{}, {"ops_reflection": rng.choice([0, 1, 5])}, {"time_ms_reflection": 10 ** 8}])},
                               "fairness": {"max_consecutive_turns": rng.choice([1, 2]), "aging_ms": rng.choice([0, 200])}}}
     if gate == "perf":
         p = {"enabled": on, "metrics": {"report_memory": rng.random() < 0.7}}
